@@ -25,58 +25,131 @@ Proof.
 Qed.
 
 (* the port text the builder writes after the host *)
-Definition port_text (host : str) (port : option Z) : option str :=
-  match host, port with
-  | _ :: _, Some z => if (z =? 0)%Z then None else Some (dec_of_Z z)
-  | _, _ => None
-  end.
+Definition port_text (port : option Z) : option str :=
+  match port with Some z => Some (dec_of_Z z) | None => None end.
 
-Lemma hostport_chars host port :
-  valid_host host = true -> forallb netloc_char (clean_hostport host port) = true.
-Proof.
-  intros Hh. unfold clean_hostport. destruct host as [|ch h]; [reflexivity|].
-  rewrite forallb_app. rewrite (forallb_imp _ _ _ host_char_netloc Hh). cbn [andb].
-  destruct port as [z|]; [|reflexivity]. destruct (z =? 0)%Z; [reflexivity|].
-  cbn [forallb]. rewrite (forallb_imp _ _ _ digitm_netloc (dec_of_Z_chars z)). reflexivity.
-Qed.
-
-Lemma hostport_no_at host port :
-  valid_host host = true -> nochar 64 (clean_hostport host port) = true.
-Proof.
-  intros Hh. unfold clean_hostport. destruct host as [|ch h]; [reflexivity|].
-  rewrite nochar_app. unfold nochar at 1. rewrite (forallb_imp _ _ _ host_char_not_at Hh). cbn [andb].
-  destruct port as [z|]; [|reflexivity]. destruct (z =? 0)%Z; [reflexivity|].
-  rewrite nochar_cons. cbn [N.eqb negb andb]. exact (forallb_imp _ _ _ digitm_not_at (dec_of_Z_chars z)).
-Qed.
+Definition host_ok (h : str) : bool := valid_host h || valid_host6 h.
 
 Lemma dec_of_Z_nonempty z : dec_of_Z z <> [].
 Proof. destruct z; cbn [dec_of_Z]; [discriminate|apply dec_of_N_nonempty|discriminate]. Qed.
 
-Lemma hostinfo_hostport host port :
-  valid_host host = true -> hostinfo (clean_hostport host port) = (host, port_text host port).
+Lemma host_text_plain h : valid_host h = true -> host_text h = h.
 Proof.
-  intros Hh. unfold clean_hostport, port_text. destruct host as [|ch h]; [reflexivity|].
-  assert (H64 : nochar 64 (ch :: h) = true) by exact (forallb_imp _ _ _ host_char_not_at Hh).
-  assert (H58 : nochar 58 (ch :: h) = true) by exact (forallb_imp _ _ _ host_char_not_colon Hh).
-  destruct port as [z|].
-  - destruct (z =? 0)%Z.
-    + rewrite app_nil_r. apply hostinfo_plain; assumption.
-    + rewrite hostinfo_port; [|assumption|assumption|exact (forallb_imp _ _ _ digitm_not_at (dec_of_Z_chars z))].
-      destruct (dec_of_Z z) eqn:E; [exfalso; exact (dec_of_Z_nonempty _ E)|reflexivity].
-  - rewrite app_nil_r. apply hostinfo_plain; assumption.
+  intros Hh. unfold host_text. destruct h as [|ch h]; [reflexivity|].
+  rewrite (chr_in_nochar 58 (ch :: h)); [reflexivity|]. exact (forallb_imp _ _ _ host_char_not_colon Hh).
 Qed.
 
-Lemma port_of_hostinfo netloc host p : hostinfo netloc = (host, p) ->
-  port_of netloc = match p with
-                   | None => ROk None
-                   | Some t => match port_value t with
-                               | Some n => if n <=? 65535 then ROk (Some n) else RErr X_Value
-                               | None => RErr X_Value
-                               end
-                   end.
+Lemma valid_host6_inv h :
+  valid_host6 h = true ->
+  host_text h = 91 :: h ++ [93] /\ forallb ip6_char h = true /\ check_bracketed h = true.
 Proof.
-  intros H. unfold port_of, port_value. rewrite H. cbn [snd]. destruct p as [t|]; [|reflexivity].
-  destruct (digits_uint t); reflexivity.
+  unfold valid_host6. rewrite !andb_true_iff. intros [[Hc Hi] Hv].
+  destruct h as [|ch h]; [discriminate|].
+  assert (Hch : ip6_char ch = true) by (cbn [forallb] in Hi; apply andb_true_iff in Hi; tauto).
+  repeat split; [|exact Hi|].
+  - unfold host_text. rewrite Hc. pose proof (ip6_char_not_open _ Hch) as E. rewrite E. reflexivity.
+  - unfold check_bracketed. rewrite (ip6_char_not_v _ Hch). exact Hv.
+Qed.
+
+(* characters, '@', and the bracket stage of the "host[:port]" text *)
+Lemma port_part_chars port :
+  forallb netloc_char (port_part port) = true.
+Proof.
+  destruct port as [z|]; [|reflexivity]. cbn [port_part forallb].
+  rewrite (forallb_imp _ _ _ digitm_netloc (dec_of_Z_chars z)). reflexivity.
+Qed.
+
+Lemma port_part_no_at port :
+  nochar 64 (port_part port) = true.
+Proof.
+  destruct port as [z|]; [|reflexivity]. cbn [port_part]. rewrite nochar_cons. cbn [N.eqb negb andb].
+  exact (forallb_imp _ _ _ digitm_not_at (dec_of_Z_chars z)).
+Qed.
+
+Lemma hostport_chars host port :
+  host_ok host = true -> forallb netloc_char0 (clean_hostport host port) = true.
+Proof.
+  intros Hh. unfold clean_hostport. rewrite forallb_app.
+  rewrite (forallb_imp _ _ _ netloc_char_0 (port_part_chars port)), andb_true_r.
+  unfold host_ok in Hh. apply orb_true_iff in Hh. destruct Hh as [Hh|Hh].
+  - rewrite (host_text_plain _ Hh). eapply forallb_imp; [|exact Hh]. intros c Hc. apply netloc_char_0, host_char_netloc, Hc.
+  - destruct (valid_host6_inv _ Hh) as (-> & Hi & _). cbn [forallb]. rewrite forallb_app.
+    rewrite (forallb_imp _ _ _ ip6_char_netloc0 Hi). reflexivity.
+Qed.
+
+Lemma hostport_no_at host port :
+  host_ok host = true -> nochar 64 (clean_hostport host port) = true.
+Proof.
+  intros Hh. unfold clean_hostport. rewrite nochar_app, (port_part_no_at port), andb_true_r.
+  unfold host_ok in Hh. apply orb_true_iff in Hh. destruct Hh as [Hh|Hh].
+  - rewrite (host_text_plain _ Hh). exact (forallb_imp _ _ _ host_char_not_at Hh).
+  - destruct (valid_host6_inv _ Hh) as (-> & Hi & _). rewrite nochar_cons, nochar_app. cbn [N.eqb negb andb].
+    unfold nochar at 1. rewrite (forallb_imp _ _ _ ip6_char_not_at Hi). reflexivity.
+Qed.
+
+Lemma hostport_bracket_stage a host port :
+  forallb netloc_char a = true -> host_ok host = true ->
+  bracket_stage (a ++ clean_hostport host port) = true.
+Proof.
+  intros Ha Hh. unfold host_ok in Hh. apply orb_true_iff in Hh. destruct Hh as [Hh|Hh].
+  - apply bracket_stage_plain. unfold clean_hostport. rewrite !forallb_app, Ha, (port_part_chars port).
+    rewrite (host_text_plain _ Hh), (forallb_imp _ _ _ host_char_netloc Hh). reflexivity.
+  - destruct (valid_host6_inv _ Hh) as (E & Hi & Hc). unfold clean_hostport. rewrite E.
+    set (pp := port_part port).
+    assert (Npp91 : nochar 91 pp = true) by exact (forallb_imp _ _ _ netloc_char_not_open (port_part_chars port)).
+    assert (Npp93 : nochar 93 pp = true) by exact (forallb_imp _ _ _ netloc_char_not_close (port_part_chars port)).
+    assert (Na91 : nochar 91 a = true) by exact (forallb_imp _ _ _ netloc_char_not_open Ha).
+    assert (Nh93 : nochar 93 host = true) by exact (forallb_imp _ _ _ ip6_char_not_close Hi).
+    replace (a ++ (91 :: host ++ [93]) ++ pp) with (a ++ 91 :: host ++ 93 :: pp)
+      by (cbn [app]; rewrite <- app_assoc; reflexivity).
+    unfold bracket_stage, bracketed_part.
+    replace (chr_in 91 (a ++ 91 :: host ++ 93 :: pp)) with true
+      by (rewrite chr_in_app; cbn [chr_in existsb N.eqb]; rewrite orb_true_r; reflexivity).
+    replace (chr_in 93 (a ++ 91 :: host ++ 93 :: pp)) with true.
+    2:{ rewrite chr_in_app. change (91 :: host ++ 93 :: pp) with ([91] ++ host ++ 93 :: pp).
+        rewrite !chr_in_app. cbn [chr_in existsb N.eqb]. rewrite !orb_true_r. reflexivity. }
+    cbn [andb negb orb]. rewrite (partition_at_app _ _ _ Na91), (partition_at_app _ _ _ Nh93). exact Hc.
+Qed.
+
+Lemma hostinfo_hostport host port :
+  host_ok host = true -> hostinfo (clean_hostport host port) = (host, port_text port).
+Proof.
+  intros Hh. unfold clean_hostport, port_text. unfold host_ok in Hh. apply orb_true_iff in Hh. destruct Hh as [Hh|Hh].
+  - rewrite (host_text_plain _ Hh).
+    assert (H64 : nochar 64 host = true) by exact (forallb_imp _ _ _ host_char_not_at Hh).
+    assert (H58 : nochar 58 host = true) by exact (forallb_imp _ _ _ host_char_not_colon Hh).
+    assert (H91 : nochar 91 host = true) by exact (forallb_imp _ _ _ host_char_not_open Hh).
+    destruct port as [z|]; cbn [port_part].
+    + rewrite hostinfo_port; try assumption.
+      * destruct (dec_of_Z z) eqn:E; [exfalso; exact (dec_of_Z_nonempty _ E)|reflexivity].
+      * exact (forallb_imp _ _ _ digitm_not_at (dec_of_Z_chars z)).
+      * exact (forallb_imp _ _ _ digitm_not_open (dec_of_Z_chars z)).
+    + rewrite app_nil_r. apply hostinfo_plain; assumption.
+  - destruct (valid_host6_inv _ Hh) as (-> & Hi & _).
+    assert (H64 : nochar 64 host = true) by exact (forallb_imp _ _ _ ip6_char_not_at Hi).
+    assert (H93 : nochar 93 host = true) by exact (forallb_imp _ _ _ ip6_char_not_close Hi).
+    destruct port as [z|]; cbn [port_part].
+    + replace ((91 :: host ++ [93]) ++ 58 :: dec_of_Z z) with (91 :: host ++ 93 :: 58 :: dec_of_Z z)
+        by (cbn [app]; rewrite <- app_assoc; reflexivity).
+      rewrite hostinfo_bracket_port; try assumption.
+      * destruct (dec_of_Z z) eqn:E; [exfalso; exact (dec_of_Z_nonempty _ E)|reflexivity].
+      * exact (forallb_imp _ _ _ digitm_not_at (dec_of_Z_chars z)).
+    + rewrite app_nil_r. apply hostinfo_bracket; assumption.
+Qed.
+
+Lemma checked_port_hostinfo netloc host p : hostinfo netloc = (host, p) ->
+  checked_port netloc = match p with
+                        | None => ROk None
+                        | Some t => match port_value t with
+                                    | Some n => if (1 <=? n) && (n <=? 65535) then ROk (Some n) else RErr X_Value
+                                    | None => RErr X_Value
+                                    end
+                        end.
+Proof.
+  intros H. unfold checked_port, port_of, port_value. rewrite H. cbn [snd]. destruct p as [t|]; [|reflexivity].
+  destruct (digits_uint t) as [u|]; [|reflexivity]. cbv beta iota zeta.
+  destruct (N.of_uint u <=? 65535) eqn:E; cbn [rbind]; rewrite ?E; [rewrite andb_true_r; reflexivity|].
+  rewrite andb_false_r. reflexivity.
 Qed.
 
 Lemma port_value_Z z : port_value (dec_of_Z z) = match z with Zneg _ => None | _ => Some (Z.to_N z) end.
@@ -108,76 +181,70 @@ Qed.
 Lemma in_domain_inv name c :
   in_domain name c = true ->
   valid_scheme name = true /\ valid_text (c_user c) = true /\ valid_text (c_pw c) = true
-  /\ valid_text (c_db c) = true /\ valid_host (c_host c) = true.
-Proof. unfold in_domain. rewrite !andb_true_iff. tauto. Qed.
+  /\ valid_text (c_db c) = true /\ host_ok (c_host c) = true.
+Proof. unfold in_domain, host_ok. rewrite !andb_true_iff. tauto. Qed.
 
 (* what _parseURI answers on the text built from components, up to the port *)
 Lemma parse_built name user pw host port db a :
-  valid_scheme name = true -> valid_text db = true -> valid_host host = true ->
+  valid_scheme name = true -> valid_text db = true -> host_ok host = true ->
   clean_auth user pw = ROk a ->
   parse_uri false (name ++ 58 :: 47 :: 47 :: (a ++ clean_hostport host port) ++ 47 :: quote [47] (strip1 db))
-  = (po <~ port_of (clean_hostport host port) ;;
+  = (po <~ checked_port (clean_hostport host port) ;;
      ROk {| r_user := opt_ne user; r_pw := opt_ne pw; r_host := opt_ne (norm_host host);
-            r_port := match po with Some 0 => None | x => x end;
-            r_path := 47 :: strip1 db; r_args := [] |}).
+            r_port := po; r_path := 47 :: strip1 db; r_args := [] |}).
 Proof.
   intros Hs Hd Hh Ha. pose proof (strip1_valid _ Hd) as Hd'.
   pose proof (hostport_no_at host port Hh) as Hat.
-  rewrite parse_uri_ok; [|exact Hs| |apply path_ok, Hd'].
-  2:{ rewrite forallb_app, (auth_chars _ _ _ Ha), (hostport_chars _ port Hh). reflexivity. }
-  unfold port_of at 1. rewrite (auth_hostinfo _ _ _ _ Ha Hat). fold (port_of (clean_hostport host port)).
-  destruct (port_of (clean_hostport host port)) as [po|e|]; cbn [rbind]; try reflexivity.
+  rewrite parse_uri_ok; [|exact Hs| |exact (hostport_bracket_stage _ _ port (auth_chars _ _ _ Ha) Hh)|apply path_ok, Hd'].
+  2:{ rewrite forallb_app, (forallb_imp _ _ _ netloc_char_0 (auth_chars _ _ _ Ha)), (hostport_chars _ port Hh). reflexivity. }
+  unfold checked_port at 1, port_of at 1. rewrite (auth_hostinfo _ _ _ _ Ha Hat).
+  fold (port_of (clean_hostport host port)). fold (checked_port (clean_hostport host port)).
+  destruct (checked_port (clean_hostport host port)) as [po|e|]; cbn [rbind]; try reflexivity.
   unfold parsed_of. destruct (auth_userinfo _ _ _ _ Ha Hat) as [Eu Ep]. rewrite Eu, Ep.
   rewrite (unquote_path _ Hd').
-  rewrite (hostname_of host _ (port_text host port)).
+  rewrite (hostname_of host _ (port_text port)).
   - reflexivity.
   - rewrite (auth_hostinfo _ _ _ _ Ha Hat). apply hostinfo_hostport, Hh.
 Qed.
 
 (* ------------------------------------------------------------------ round trip *)
 Theorem roundtrip_partial name c :
-  in_domain name c = true -> guard c = true -> roundtrips name c.
+  in_domain name c = true -> port_in_range c = true -> guard c = true -> roundtrips name c.
 Proof.
-  intros Hd Hg. destruct (in_domain_inv _ _ Hd) as (Hs & Hu & Hp & Hdb & Hh).
-  unfold guard in Hg. rewrite !andb_true_iff in Hg. destruct Hg as [[[Hr Hph] Hpu] Hna].
+  intros Hd Hr Hg. destruct (in_domain_inv _ _ Hd) as (Hs & Hu & Hp & Hdb & Hh).
+  unfold guard in Hg. rewrite !andb_true_iff in Hg. destruct Hg as [Hpu Hna].
   unfold pw_has_user in Hpu. destruct (auth_ok _ _ Hu Hp Hpu) as [a Ha].
   unfold roundtrips, build_comps. rewrite gen_uri_char.
   rewrite (clean_uri_shape _ _ _ _ _ _ _ Ha (strip1_valid _ Hdb)).
   eexists. split; [reflexivity|].
   rewrite (parse_built _ _ _ _ _ _ _ Hs Hdb Hh Ha).
-  rewrite (port_of_hostinfo _ _ _ (hostinfo_hostport _ (c_port c) Hh)).
-  unfold expected, port_text, port_in_range, port_has_host, no_args in *.
+  rewrite (checked_port_hostinfo _ _ _ (hostinfo_hostport _ (c_port c) Hh)).
+  unfold expected, port_text, port_in_range, no_args in *.
   destruct (c_args c); [|discriminate].
-  destruct (c_port c) as [z|].
-  - destruct (c_host c) as [|ch h]; [discriminate|].
-    replace (z =? 0)%Z with false by lia. rewrite port_value_Z.
-    destruct z as [|p|p]; try (exfalso; lia).
-    cbn [Z.to_N]. replace (N.pos p <=? 65535) with true by lia. reflexivity.
-  - destruct (c_host c); reflexivity.
+  destruct (c_port c) as [z|]; [|reflexivity].
+  rewrite port_value_Z. destruct z as [|p|p]; try (exfalso; lia).
+  cbn [Z.to_N]. replace ((1 <=? N.pos p) && (N.pos p <=? 65535)) with true by lia. reflexivity.
 Qed.
 
 (* ------------------------------------------------------------------ bad ports, builder side *)
 Definition rejected (name : str) (c : comps) : Prop :=
   forall u, build_comps name c = ROk u -> exists e, parse_uri false u = RErr e.
 
-Theorem bad_port_build_partial name c :
-  in_domain name c = true -> port_in_range c = false ->
-  c_port c <> Some 0%Z -> port_has_host c = true -> rejected name c.
+Theorem bad_port_build name c :
+  in_domain name c = true -> port_in_range c = false -> rejected name c.
 Proof.
-  intros Hd Hr Hz Hph u Hb. destruct (in_domain_inv _ _ Hd) as (Hs & Hu & Hp & Hdb & Hh).
+  intros Hd Hr u Hb. destruct (in_domain_inv _ _ Hd) as (Hs & Hu & Hp & Hdb & Hh).
   unfold build_comps in Hb. rewrite gen_uri_char in Hb.
   destruct (clean_auth (c_user c) (c_pw c)) as [a|e|] eqn:Ha.
   2,3: unfold clean_uri in Hb; rewrite Ha in Hb; discriminate.
   rewrite (clean_uri_shape _ _ _ _ _ _ _ Ha (strip1_valid _ Hdb)) in Hb. injection Hb as <-.
   rewrite (parse_built _ _ _ _ _ _ _ Hs Hdb Hh Ha).
-  rewrite (port_of_hostinfo _ _ _ (hostinfo_hostport _ (c_port c) Hh)).
-  unfold port_text, port_in_range, port_has_host in *.
+  rewrite (checked_port_hostinfo _ _ _ (hostinfo_hostport _ (c_port c) Hh)).
+  unfold port_text, port_in_range in *.
   destruct (c_port c) as [z|]; [|discriminate].
-  destruct (c_host c) as [|ch h]; [discriminate|].
-  replace (z =? 0)%Z with false by (destruct z; [congruence|reflexivity|reflexivity]).
   rewrite port_value_Z. destruct z as [|p|p].
-  - congruence.
-  - cbn [Z.to_N]. replace (N.pos p <=? 65535) with false by lia. eexists. reflexivity.
+  - eexists. reflexivity.
+  - cbn [Z.to_N]. replace ((1 <=? N.pos p) && (N.pos p <=? 65535)) with false by lia. eexists. reflexivity.
   - eexists. reflexivity.
 Qed.
 
@@ -186,23 +253,26 @@ Theorem bad_port_text_rejected nt name ui host ptxt tail :
   valid_scheme name = true ->
   match ui with Some a => forallb netloc_char a | None => true end = true ->
   valid_host host = true -> forallb port_char ptxt = true -> tail_ok tail = true ->
-  ptxt <> [] -> port_text_in_range ptxt = false -> port_text_zero ptxt = false ->
+  ptxt <> [] -> port_text_in_range ptxt = false ->
   parse_uri nt (uri_with_port name ui host ptxt tail) = RErr X_Value.
 Proof.
-  intros Hs Hui Hh Hp Ht Hne Hr Hz. unfold uri_with_port.
+  intros Hs Hui Hh Hp Ht Hne Hr. unfold uri_with_port.
   assert (H64h : nochar 64 host = true) by exact (forallb_imp _ _ _ host_char_not_at Hh).
   assert (H58h : nochar 58 host = true) by exact (forallb_imp _ _ _ host_char_not_colon Hh).
+  assert (H91h : nochar 91 host = true) by exact (forallb_imp _ _ _ host_char_not_open Hh).
   assert (H64p : nochar 64 ptxt = true) by exact (forallb_imp _ _ _ port_char_not_at Hp).
+  assert (H91p : nochar 91 ptxt = true).
+  { eapply forallb_imp; [|exact Hp]. intros c Hc. apply netloc_char_not_open, port_char_netloc, Hc. }
   assert (Hhp : nochar 64 (host ++ 58 :: ptxt) = true).
   { rewrite nochar_app, H64h, nochar_cons, H64p. reflexivity. }
   assert (Chp : forallb netloc_char (host ++ 58 :: ptxt) = true).
   { rewrite forallb_app, (forallb_imp _ _ _ host_char_netloc Hh). cbn [forallb].
     rewrite (forallb_imp _ _ _ port_char_netloc Hp). reflexivity. }
-  assert (Hport : port_of (host ++ 58 :: ptxt) = RErr X_Value).
-  { rewrite (port_of_hostinfo _ _ _ (hostinfo_port _ _ H64h H58h H64p)).
+  assert (Hport : checked_port (host ++ 58 :: ptxt) = RErr X_Value).
+  { rewrite (checked_port_hostinfo _ _ _ (hostinfo_port _ _ H64h H58h H64p H91h H91p)).
     destruct ptxt as [|p0 pt]; [congruence|]. cbn [is_nil].
-    unfold port_text_in_range, port_text_zero in *. destruct (port_value (p0 :: pt)) as [n|]; [|reflexivity].
-    replace (n <=? 65535) with false by lia. reflexivity. }
+    unfold port_text_in_range in *. destruct (port_value (p0 :: pt)) as [n|]; [|reflexivity].
+    rewrite Hr. reflexivity. }
   pose (pre := match ui with Some a => a ++ [64] | None => [] end).
   match goal with
   | |- parse_uri nt ?x = _ =>
@@ -210,11 +280,13 @@ Proof.
   end.
   { subst pre. cbn [app]. repeat (rewrite <- app_assoc; cbn [app]). reflexivity. }
   rewrite E.
-  apply (parse_uri_err nt name (pre ++ host ++ 58 :: ptxt) tail X_Value); [exact Hs| |exact Ht|].
-  - rewrite forallb_app, Chp, andb_true_r. subst pre. destruct ui as [a|]; [|reflexivity].
-    rewrite forallb_app, Hui. reflexivity.
-  - subst pre. destruct ui as [a|]; [|exact Hport].
-    rewrite <- app_assoc. cbn [app]. rewrite (port_of_after_at _ _ Hhp). exact Hport.
+  assert (Call : forallb netloc_char (pre ++ host ++ 58 :: ptxt) = true).
+  { rewrite forallb_app, Chp, andb_true_r. subst pre. destruct ui as [a|]; [|reflexivity].
+    rewrite forallb_app, Hui. reflexivity. }
+  apply (parse_uri_err nt name (pre ++ host ++ 58 :: ptxt) tail X_Value);
+    [exact Hs|exact (forallb_imp _ _ _ netloc_char_0 Call)|exact (bracket_stage_plain _ Call)|exact Ht|].
+  subst pre. destruct ui as [a|]; [|exact Hport].
+  rewrite <- app_assoc. cbn [app]. unfold checked_port. rewrite (port_of_after_at _ _ Hhp). exact Hport.
 Qed.
 
 (* ------------------------------------------------------------------ sqlite *)
@@ -241,8 +313,8 @@ Proof.
     with ([115; 113; 108; 105; 116; 101] ++ 58 :: (47 :: 47 :: [] ++ 47 :: quote [47] rest)) at 1.
   rewrite partition_at_app by reflexivity.
   change (str_eqb [115; 113; 108; 105; 116; 101] sqlite_scheme) with true. cbv iota.
-  rewrite parse_uri_ok; [|reflexivity|reflexivity|apply path_ok, Hv].
-  change (port_of []) with (@ROk (option N) None). cbn [rbind].
+  rewrite parse_uri_ok; [|reflexivity|reflexivity|reflexivity|apply path_ok, Hv].
+  change (checked_port []) with (@ROk (option N) None). cbn [rbind].
   rewrite gen_sqlite_from_params_char. unfold clean_sqlite_from_params, parsed_of.
   change (hostname []) with (@None str). change (userinfo []) with (@None str, @None str).
   cbn [r_host r_port r_user r_pw r_path fst snd unquote_if_truthy].
